@@ -537,6 +537,14 @@ func runC17(c *engine.Ctx) {
 	// ---- R13 a frame length read off the wire is bounded below before it sizes a buffer (shared with C16.R2) ----
 	c16AllocSizesRule(c, "R13")
 
+	// ---- R14 a decoder never reads past its frame (shared with C16.R22): a buffered reader thrown away after one
+	// message has swallowed the bytes that follow it ----
+	checkThrowawayBufio(c, "R14")
+
+	// ---- R15 a payload of any legal size is decoded without panicking (shared with C16.R20): Decode into a buffer sized
+	// for the local packet size panics on a peer's larger datagram ----
+	c16DecodeInto(c, "R15")
+
 	// ---- R12 the wire form of every message is the one encoding/json derives from the struct (which R2 pins): no type of
 	// package msg brings its own encoder or decoder — a hand-written MarshalJSON is a second schema that R2 cannot see ----
 	c.Rule("R12", "no type declared in pkg/msg has a MarshalJSON, UnmarshalJSON, MarshalText or UnmarshalText method")
